@@ -287,8 +287,9 @@ PROPS = {
     "C05": {
         "title": "Vesting module account is always exactly backed by its pools",
         "model": "Vest.v: create_pool, withdraw_all, send_to_vesting_account, create_vesting_account, split/move, step, run; VestGenesis.v: vgenesis_valid, vgenesis_init",
-        "runs": [vest("pools", 120, 4000), vest("", 60, 2000), vgenesis(300, 10000)],
-        "preds": ["C05."],
+        "runs": [vest("pools", 120, 4000), vest("", 60, 2000), vgenesis(300, 10000),
+                 {"kind": "upgrade", "profile": "", "n_quick": 200, "n_thorough": 6000, "per_shard": 20, "env": {"TZ": "UTC"}}],
+        "preds": ["C05.", "C16.solvency_", "C16.total_locked_preserved"],   # pool solvency (C05) must hold after the v1.2.0 upgrade
         "rule": VEST_RULE + " | " + VGENESIS_RULE,
         "level_text": "Coq theorems over the executable vesting-world model: Solvent (module balance = sum over pools of locked-sent-withdrawn, "
                       "every pool within bounds) is an invariant of every history of vesting messages by any signers with any arguments and "
